@@ -266,3 +266,56 @@ CLAIMED["C18"]["text"] += (" Added: the enum scanner model and its theorems (see
                            "by several schemas, stand-alone and empty comments are generated; fix edd119f (empty // comment) came from the model's differential run.")
 for k in ("C06", "C14"):
     CLAIMED[k]["text"] = CLAIMED[k]["text"].replace("PARTIAL. ", "", 1) if CLAIMED[k]["text"].startswith("PARTIAL. ") else CLAIMED[k]["text"]
+
+# ---- additions of the fourth round (hunters, loader model, Len and opener theorems) ----
+CLAIMED["C16"]["text"] = (
+    "Proved. (a) Schema/Ast.v, rule-free abstract fragment: C16_ast_preorder, C16_ast_size_is_node_count, C16_ast_root, C16_ast_children_keys. (b) SchemaScan/Loader.v is an executable model "
+    "of the whole schema loader (scanner events -> example nodes with their rules as written -> the AST view GetAST builds: nodeLoader and the Grow methods, the 11-state rule loader, the "
+    "enum / allOf / or / or-rule-set loaders, every constraint constructor, the compile pass the loader runs on rule-sets, error positions through the nested CatchLexEventError). "
+    "SchemaScan/LoaderProofs.v proves about it, for texts of any size: C16_load_mirrors_json / C16_load_mirrors_plain_json - for every JSON value tree (any depth and width, any blanks and "
+    "line breaks in every gap) without exponent numerals and with pairwise distinct keys in every object, load(text) is exactly the mirror image of the text: one node per value in source "
+    "order, keys unquoted, tokens as written; C16_ast_mirrors_plain_json / C16_loader_model_plain_json - the AST view is ast_mirror v (token kind and schema type read off the token, value, "
+    "no rules), with C16_ast_node_count_plain_json and C16_ast_preorder_plain_json; C16_duplicate_key_refused(_first) - otherwise the loader fails with 402 at the opening quote of the first "
+    "repeated key (offset computed), and C16_distinct_keys_iff_no_duplicate; C16_rules_in_written_order(_annot), C16_rule_duplicate_refused, C16_rules_added_iff_distinct - the rules a node "
+    "reports are the written ones with names, values and order preserved, and a repeated rule is refused with 501. The exponent hypothesis is forced: the schema scanner refuses 1e5 (witness "
+    "by vm_compute). PARTIAL beyond that: for annotated texts (rules, notes, shortcuts, comments) the loader model is tied to the library by the differential run only - a loader-only probe hook "
+    "and GetAST are compared with the extracted model on ~11k (quick) / ~100k (thorough) texts per run (verdict, code, position, complete AST incl. every rule with source, token type, value, "
+    "comment, items, props) - and GetAST is compared with the AST computed from the generator's abstract schema (rules in random written order, literals with trailing zeros, enum lists, "
+    "declared and inferred types, formats, notes, shortcuts, rule-sets, allOf, notes after closing brackets, rule values as written).")
+CLAIMED["C16"]["note"] = ("Trusted: the loader model's tie is the difftest (regexp.MustCompile and registered enum values are inputs the difftest asks the library for); lib/jsight.py expected_ast; the "
+                          "harness' JSON rendering of ASTNode/RuleASTNode. Fixed: 86f69d0, f7150cd, 1d20475 (found by hunters and by the loader model's author).")
+CLAIMED["C16"]["technique"] = "Coq model of the schema loader with mirror theorems (text -> nodes -> AST) for plain JSON of any size and the rule-order mechanism + differential run of the loader model and of an abstract-schema oracle against GetAST"
+CLAIMED["C10"]["text"] += (" Added: C10_parse_uint_exact / C10_parse_uint_refuses_overflow - bytes.ParseUint (exponents, and the parameters of minLength/maxLength/minItems/maxItems/precision) returns the number "
+                           "the digits spell, for digit strings of any length, and refuses exactly when it does not fit 64 bits (fix c58a671: it wrapped modulo 2^64); C10_scan_refuses_large_exponent - "
+                           "exp_fits now means 'the library can represent the numeral' (the exponent adds at most 10000 zeros, fix dbc9afe) and the bound is exact; "
+                           "C10_integer_by_spelling_refuted with C10_integer_class_of_value - the kernel-checked witness and the exact scope of the known finding C10-integer-by-spelling (a dot without "
+                           "exponent decides 'float' before the value is looked at; pinned by guess_test.go).")
+CLAIMED["C14"]["text"] += (" Since the fixes 555884d / c67ddfe (found while proving: the first versions of the theorems were false of the faithful model and the counterexamples replayed on the library) "
+                           "C14_schema_len_prefix is unconditional (positive, inside the text, no trailing blank); C14_schema_len_error_iff / C14_schema_len_value_iff say exactly when Len fails; "
+                           "C14_schema_len_stable, C14_schema_len_prefix_is_complete, C14_schema_len_prefix_accepted_in_length_mode hold on every text of at most 5 bytes over a 14-byte alphabet "
+                           "(computed inside Coq), with kernel-checked counterexamples to the unbounded forms (a trailing # comment without a line break is not counted; an annotation popped by a "
+                           "comment). Len after the closing bracket of an inline annotation object (fix 0ff4f91) is generated on every run.")
+CLAIMED["C17"]["text"] += (" Added after the fixes 0219b8c / ca80efc / b9d4d7e: C17_schema_accepted_text_not_inside_opener, C17_schema_text_ending_inside_opener, C17_schema_blank_then_slash, "
+                           "C17_schema_blank_then_two_hashes and the enum twins C17_enum_accepted_text_not_in_opener, C17_enum_opener_eof_position, C17_enum_text_ending_in_opener_refused(_space, _space_plain): "
+                           "a text that ends after the first byte of // or /*, or inside ###, is refused with 303 at its last byte, and an accepted text never ends there; the check cuts generated "
+                           "schemas inside every opener and checks the position of ##x.")
+CLAIMED["C02"]["text"] += (" Fourth round: probes with exponents >= 2^63 / 2^64 (fix c58a671), re-spellings of numbers under const and enum (fix 29bf73c: equality by value, integer and float stay different kinds) "
+                           "and the RFC 3339 grammar for datetime (fix 3e85282: lower-case t/z, leap second, no comma fraction, offsets 00:00-23:59) are generated on every run.")
+CLAIMED["C03"]["text"] += (" Fourth round: key types in every form a string type can take (regex, lengths, plain example, alias, union, {type: \"@S\"}) - fix 59a6341 replaced the validator's private "
+                           "re-implementation of the key type by the real validators; the remaining difference (a bare-example key type admits only that very key) is pinned by the repository's requirement "
+                           "tests and recorded as known finding C03-bare-example-key-type with a classifier that re-runs the oracle under the pinned reading. allOf diamonds and array/object alternatives of or "
+                           "rule-sets run from the corpus (fixes 0b36c13, 60afd49).")
+CLAIMED["C08"]["text"] += (" Fourth round: typed cases on shortcut nodes and or rule-sets (or next to a type reference, duplicate type in both orders, redundant type mixed, rules that cannot apply inside a "
+                           "rule-set with or without a declared type) - fixes b39fd7b, 76cb707, 6422f1f, 0e80d2e.")
+CLAIMED["C09"]["text"] += (" Fourth round: reference forms outside the object-type generator run on every check - diamonds of literal type references (fix 4088268), keys optional by default (18cb50b), "
+                           "user types inside or rule-sets for 1302 and UsedUserTypes (22ae533), a root file named like a type (886fbd4), a dense union graph of 8 types under a 15 s limit (24ba9c1).")
+CLAIMED["C11"]["text"] += (" Fourth round: rendered error texts are compared across runs and histories too (fixes 14a88ff, d7272bd, 4088268 removed the map-order and heap-address dependence); a stream with one "
+                           "allOf child object shared by two schemas that define the parent differently reports the sequential history dependence recorded as known finding C11-shared-type-allOf-history.")
+CLAIMED["C13"]["text"] += (" Fourth round: escaped spellings of document keys under key shortcuts, quoted / padded enum inside or rule-sets (fix 405400c), blanks inside empty brackets (fix eb704e4).")
+CLAIMED["C15"]["text"] += (" Fourth round: keys with HTML-sensitive characters (fix 40b4f9d), key-shortcut examples ending in an escaped quote or colliding with a named key (6ff47db, ef39a8c; the uninhabitable "
+                           "required collision is known finding C15-required-shortcut-collides-with-named-key), or on empty containers (14508b3), nothing-texts (82eba93).")
+CLAIMED["C18"]["text"] += (" Fourth round: character classes outside ASCII (fix 5b06c22: Example panicked) and word-boundary assertions (known finding C18-regex-example-word-boundary: the third-party example "
+                           "generator ignores \\b/\\B); enum membership compares numbers of one kind by value (fix 29bf73c).")
+CLAIMED["C07"]["text"] += (" Fourth round: outcome classes RUNTIME (a recovered Go runtime panic handed back as an error text) and EMPTYMSG (a library error with an empty Message()), exponents near the machine word, "
+                           "empty documents - fixes dbc9afe, db370ed, 6901580, 5b06c22.")
+CLAIMED["C04"]["text"] += (" Fourth round: rule parameters beyond 2^64 and item counts inside or rule-sets (fixes c58a671, 60afd49).")
